@@ -77,23 +77,29 @@ def candidate_loss(ctx, F):
 
 
 def lex_offsets_moved(ctx, F):
+    offsets_moved(ctx, F, 'COVER-C09e', lambda a: 'lex' in a[1] or 'tantivy' in a[1], 'lexical', 4,
+                  'after the growth and a reopen the engine is loaded from delta bytes before its data (or not at all) and keyword queries lose documents', 'lex-offset-not-shifted')
+
+
+def offsets_moved(ctx, F, rule, pred, what, floor, consequence, key):
+    """the file offsets of every manifest collection selected by pred (anchors of the Toc type graph, see COVER-C02d) are moved by
+    adjust_offsets_after_wal_growth"""
     from . import c02
-    ctx.rule('COVER-C09e', 'the offsets of every lexical index manifest collection in the TOC are moved when the embedded WAL grows')
-    adj = ctx.need('COVER-C09e', 'Memvid::adjust_offsets_after_wal_growth')
+    ctx.rule(rule, 'the offsets of every %s index manifest collection in the TOC are moved when the embedded WAL grows' % what)
+    adj = ctx.need(rule, 'Memvid::adjust_offsets_after_wal_growth')
     if adj is None:
         return
     ctx.touch(adj, len(adj.blocks))
     c02.toc_offset_fields(F)
     c02.adjusted_fields(F, adj)
-    lexical = sorted({a for anchors in c02.toc_offset_fields.anchors.values() for a in anchors if 'lex' in a[1] or 'tantivy' in a[1]})
-    ctx.floor('COVER-C09e', len(lexical), 4, 'lexical manifest collections holding file offsets in the Toc type graph')
-    for a in lexical:
+    sel = sorted({a for anchors in c02.toc_offset_fields.anchors.values() for a in anchors if pred(a)})
+    ctx.floor(rule, len(sel), floor, '%s manifest collections holding file offsets in the Toc type graph' % what)
+    for a in sel:
         ctx.evaluations += 1
         if a in c02.adjusted_fields.anchors:
-            ctx.ok('COVER-C09e', adj, '%s.%s offsets are moved by delta' % a)
+            ctx.ok(rule, adj, '%s.%s offsets are moved by delta' % a)
         else:
-            ctx.bad('COVER-C09e', adj, 'the lexical index descriptors held in %s.%s are not moved when the embedded WAL grows: after the growth and a reopen the engine is loaded from '
-                    'delta bytes before its data (or not at all) and keyword queries lose documents' % a, sink='%s.%s' % a, detail='lex-offset-not-shifted:%s.%s' % a)
+            ctx.bad(rule, adj, 'the %s index descriptors held in %s.%s are not moved when the embedded WAL grows: %s' % (what, a[0], a[1], consequence), sink='%s.%s' % a, detail='%s:%s.%s' % (key, a[0], a[1]))
 
 
 def run(ctx):
